@@ -25,6 +25,8 @@ package metrics
 import (
 	"fmt"
 	"runtime"
+	"sort"
+	"strconv"
 	"sync"
 	"sync/atomic"
 	"time"
@@ -485,13 +487,18 @@ func (mc *Collector) Reset() {
 
 // metricKey generates a unique key for a metric with tags
 func (mc *Collector) metricKey(name string, tags map[string]string) string {
-	if len(tags) == 0 {
-		return name
+	// The key must be a function of the identity (name, tag set) only: tag names are
+	// sorted because map iteration order is random, and every component is quoted so
+	// that separators inside names or values cannot make two identities collide.
+	names := make([]string, 0, len(tags))
+	for k := range tags {
+		names = append(names, k)
 	}
+	sort.Strings(names)
 
-	key := name
-	for k, v := range tags {
-		key += ":" + k + "=" + v
+	key := strconv.Quote(name)
+	for _, k := range names {
+		key += ":" + strconv.Quote(k) + "=" + strconv.Quote(tags[k])
 	}
 	return key
 }
